@@ -209,6 +209,7 @@ impl PartialOrd for Rgba {
     }
 }
 
+#[cfg_attr(kani, kani::ensures(|r| kani_verif::cmp_chan_post(a, b, r)))]
 fn cmp_chan(a: f64, b: f64) -> Ordering {
     if (a - b).abs() < 1e-7 {
         Ordering::Equal
@@ -222,6 +223,8 @@ fn cmp_chan(a: f64, b: f64) -> Ordering {
     }
 }
 
+#[cfg_attr(kani, kani::requires(kani_verif::cap_pre(n, max)))]
+#[cfg_attr(kani, kani::ensures(|r| kani_verif::cap_post(n, max, r)))]
 fn cap(n: f64, max: f64) -> f64 {
     f64::min(f64::max(0., n), max)
 }
@@ -493,3 +496,7 @@ fn write_rgba(
 fn near_integer(v: f64) -> bool {
     (v - v.round()).abs() < 1e-7
 }
+
+#[cfg(kani)]
+#[path = "/verif/kani/rgba.rs"]
+pub(super) mod kani_verif;
